@@ -154,7 +154,7 @@ def r4(ctx, prog):
     cs = [c for c in g.calls("_mi_bitmap_unclaim_across") if g.mentions_field(rl.arg(g, c, 0), "blocks_purge")]
     ctx.check(R, len(cs) == 1, g.where(), "allocation removes its blocks from blocks_purge", key="C13.R4:alloc:clear")
     for c in cs:
-        claim = [x for x in g.calls("mi_arena_try_claim")]
+        claim = rl.calls_doing(prog, g, ("_mi_bitmap_try_find_from_claim_across",))
         w = rl.precedes(g, lambda e: e in claim, c)
         ctx.check(R, w is None, g.where(c), "after the blocks were claimed in blocks_inuse", key="C13.R4:alloc:order", witness=w)
     h = prog.fn("_mi_arena_free")
